@@ -17,10 +17,10 @@ var c01Frags = []string{
 	"{{", "}}", "{%", "%}", "{#", "#}", "-", " ", "\n", "a", "1", ".", "|", "(", ")", "[", "]", "{", "}",
 	"\"", "'", "#{", ",", ":", "?", "=", "+", "%", "*", "/", "~", "<", "!", "not", "in", "is", "if", "endif",
 	"for", "endfor", "block", "endblock", "set", "verbatim", "endverbatim", "\r", "\t", "é", "\xff", "$",
-	"embed", "filter", "macro", "and",
+	"embed", "filter", "macro", "and", "\\",
 }
 
-var c01Core = []string{"{{", "{%", "{#", "a", "1", ".", "\"", "-", " ", "%}", "}}", "("}
+var c01Core = []string{"{{", "{%", "{#", "a", "1", ".", "\"", "-", " ", "%}", "}}", "(", "\\", "'"}
 
 func genStrings(alpha []string, n int, fam string, emit func(core.Case)) {
 	idx := make([]int, n)
@@ -162,7 +162,7 @@ func init() {
 	core.Register(&core.Check{
 		ID:       "C01",
 		Category: "exploration",
-		Rule: "every string over a 54-fragment alphabet up to the stated length, every string over the 12-fragment core alphabet up to a larger length, and the 1-edit (thorough: 2-edit) mutation neighbourhood " +
+		Rule: "every string over a 55-fragment alphabet up to the stated length, every string over the 14-fragment core alphabet up to a larger length, and the 1-edit (thorough: 2-edit) mutation neighbourhood " +
 			"(byte prefixes, token deletions, fragment insertions/replacements at token boundaries) of a corpus of well-formed templates in three nesting hosts; " +
 			"each input is parsed by parse.Parse and by twig Env.Parse in a supervised worker; distinct = distinct input string; non-trivial = the input contains an opening delimiter",
 		Assumptions: []string{
